@@ -91,6 +91,34 @@ def scalar_from_value(name, v, scalar=None):
         raise Invalid from e
 
 
+def untyped_literal(node, variables):
+    """Value of a literal without type information; variables already carry their coerced values (defaults
+    included); an absent variable leaves an object field out and becomes null inside a list."""
+    k = type(node).__name__
+    if k == "VariableNode":
+        return variables.get(node.name.value, MISSING) if variables is not None else MISSING
+    if k == "NullValueNode":
+        return None
+    if k == "IntValueNode":
+        return int(node.value)
+    if k == "FloatValueNode":
+        return float(node.value)
+    if k in ("ListValueNode", "ConstListValueNode"):
+        out = []
+        for x in node.values:
+            v = untyped_literal(x, variables)
+            out.append(None if v is MISSING else v)
+        return out
+    if k in ("ObjectValueNode", "ConstObjectValueNode"):
+        out = {}
+        for f in node.fields:
+            v = untyped_literal(f.value, variables)
+            if v is not MISSING:
+                out[f.name.value] = v
+        return out
+    return node.value
+
+
 def scalar_from_literal(name, node, scalar=None, variables=None):
     k = type(node).__name__
     if name == "Int":
@@ -117,9 +145,12 @@ def scalar_from_literal(name, node, scalar=None, variables=None):
         if k in ("StringValueNode", "IntValueNode"):
             return node.value
         raise Invalid
+    if name == "Any":
+        v = untyped_literal(node, variables if variables is not None else {})
+        if v is MISSING:
+            return MISSING
+        return v
     try:
-        from graphql.utilities import value_from_ast_untyped
-
         if getattr(scalar, "coerce_input_literal", None) is not None:
             return scalar.coerce_input_literal(node)
         return scalar.parse_literal(node, variables)
